@@ -175,8 +175,12 @@ def writerVerdict (minor : Nat) (v : Val) (impl : String) : String × String :=
     if pyRead minor b ≠ some (v.toPy minor, []) then ("viol:py-roundtrip", "-")
     else
       let isCode := match v with | .code _ => true | _ => false
+      -- the specification is evaluated on the implementation's own answer: its `(read …)` column must be the normal form of the value
+      let expected := "(read (ok " ++ valShow (v.norm minor) ++ " 0))"
+      let implReadOk := (impl.splitOn expected).length > 1
       match readModel isCode minor b with
-      | .ok v' [] => if v' = v.norm minor then ("ok", "-") else ("viol:erg-roundtrip-value", "-")
+      | .ok v' [] => if v' = v.norm minor then (if implReadOk then ("ok", "-") else ("viol:erg-roundtrip-impl", "-"))
+                     else ("viol:erg-roundtrip-value", "-")
       | .ok _ _ => ("viol:erg-roundtrip-rest", "-")
       | .err e => ("viol:erg-read-err " ++ e, "-")
       | .crash s => ("viol:erg-read-crash " ++ s, if K_closure311 minor v && s == "kind" then idClosure else "-")
